@@ -201,6 +201,9 @@ type NumericRangeFacet struct {
 }
 
 func (nrf *NumericRangeFacet) Same(other *NumericRangeFacet) bool {
+	if nrf.Name != other.Name {
+		return false
+	}
 	if nrf.Min == nil && other.Min != nil {
 		return false
 	}
@@ -254,6 +257,9 @@ type DateRangeFacet struct {
 }
 
 func (drf *DateRangeFacet) Same(other *DateRangeFacet) bool {
+	if drf.Name != other.Name {
+		return false
+	}
 	if drf.Start == nil && other.Start != nil {
 		return false
 	}
